@@ -30,6 +30,8 @@ type Engine struct {
 	strLits          map[string]string
 	chanTypeIDs      map[string]int
 	chanTouch        map[*ssa.Function]int
+	scratchSet       map[string]bool
+	scratchSorts     map[string]Sort
 	chanMu           sync.Mutex
 	heapSorts        map[string]Sort
 	externParamTypes map[string]types.Type
